@@ -33,6 +33,8 @@ type Config struct {
 	Gen      GenCfg  `json:"gen"`
 	Faults   bool    `json:"faults"`
 	MaxFault int     `json:"max_fault"` // max fault positions per shape (0 = all)
+	Child    int     `json:"child"`     // sweep: every n-th position also probes from a child process (0 = never)
+	Probe    *ProbeCfg `json:"probe,omitempty"`
 }
 
 func main() {
@@ -54,8 +56,10 @@ func main() {
 		runSeq(cfg)
 	case "fault":
 		runFault(cfg)
-	case "dump":
-		runDump(cfg)
+	case "sweep":
+		runSweep(cfg)
+	case "probe":
+		runProbe(cfg)
 	default:
 		fmt.Println("unknown mode")
 		os.Exit(2)
@@ -88,4 +92,3 @@ func runSeq(cfg Config) {
 	}
 }
 
-func runDump(cfg Config) {}
